@@ -7,7 +7,7 @@ Not decided: regex semantics, integer parsing.
 """
 import ast
 
-from ..model import dotted, unparse, norm, walk_no_nested
+from ..model import dotted, unparse, norm, walk_no_nested, loop_exits, loop_of
 from ..rulelib import Ctx, nodes_calling, reaching_defs, value_assigned, short
 
 DB = {'TimeSeriesDatabase'}
@@ -141,7 +141,7 @@ def run(check):
                    'the default schema is not appended after the loop over the file\'s sections (or pattern sections '
                    'are not appended inside it)')
     # incomplete sections are skipped with `continue`, never by leaving the loop
-    leaving = [n for n in ast.walk(loop) if isinstance(n, (ast.Break, ast.Return))]
+    leaving = loop_exits(loop)
     if leaving:
       r_lo.violate('%s: incomplete section' % lname, lf, leaving[0], 'a `%s` inside the section loop stops loading the '
                    'remaining sections' % type(leaving[0]).__name__.lower())
